@@ -327,8 +327,12 @@ def gen_case(rng, kind):
         items = []
         n = 0
         for _ in range(rng.randrange(1, 6)):
-            if rng.random() < 0.2:
+            k = rng.random()
+            if k < 0.2:
                 items.append(rng.choice([">", "<"]))
+            elif k < 0.35:
+                # "whatever X contains": rests and default-length changes inside the chord move the pointer but not the law
+                items.append(rng.choice(["r", "r8", "r2", "r%7", "r4."]))
             else:
                 items.append(rng.choice("cdefgab") + rng.choice(["", "", "+", "-", "#"]) + rng.choice(["", "", "", "8", "2", "%5"]))
                 n += 1
